@@ -297,7 +297,8 @@ def _checked_history(ctx, h, steps):
                 return
         else:
             h.step(dict(var=4, apply=2, foa=1, cofactor=1, compose=1, rename=1, quantify=2,
-                        hold=5, release=1, gc=2, swap=2, sift=1, order=1))
+                        hold=5, release=1, gc=2, swap=2, sift=1, order=1, gcroots=1, pairs=0.5,
+                        cube=0.5, image=0.5, preimage=0.5))
 
 
 def checked_subst_history(ctx, h, steps, kinds):
@@ -1207,7 +1208,8 @@ def check_C06(ctx):
         for _ in range(rng.randint(30, 150)):
             n_before = len(h.s.lines)
             h.step(dict(var=3, apply=8, ite=3, quantify=1, cofactor=1, hold=4, release=3, gc=3,
-                        swap=2, sift=1, order=1, foa=1))
+                        swap=2, sift=1, order=1, foa=1, gcroots=2, pairs=0.5, image=0.5, preimage=0.5,
+                        cube=0.5))
             was_gc = h.s.lines[-1].endswith('\tgc')
             bad = gc_oracle(ctx, h, after_gc=was_gc)
             # held nodes are never deleted and keep their function
@@ -1892,6 +1894,14 @@ def malformed_calls(rng, h):
         ('undeclared-var', 'var', ['nosuch']),
         # the public `swap` collects garbage, then refuses a name that is not declared
         ('bad-swap-unknown-name', 'swap', ['n:nosuch', f'n:{some}']),
+        # the rooted collection of an integer that is no node: `KeyError` before anything is freed
+        ('gc-unknown-root', 'gc_roots', [f'{u},{bogus}']),
+        ('pairs-unknown-name', 'reorder_pairs', [f'{some}=nosuch']),
+        ('pairs-with-itself', 'reorder_pairs', [f'{some}={some}']) if n else
+        ('undeclared-var', 'var', ['nosuch']),
+        ('image-undeclared-qvar', 'image', [u, u, '', 'n:nosuch', 0]),
+        ('image-unknown-node', 'image', [u, bogus, '', '', 0]),
+        ('preimage-unknown-node', 'preimage', [bogus, u, '', '', 1]),
         ('bad-swap-unknown-name-2', 'swap', [f'n:{some}', 'n:nosuch']),
         ('undeclare-unknown', 'undeclare', ['nosuch']),
         ('quantify-undeclared', 'quantify', [u, 'n:nosuch', 0]),
@@ -2067,7 +2077,8 @@ def check_C17(ctx):
             if rng.random() < 0.5:
                 h.s.op(0, 'set_last_len', rng.randint(2, 8))
         w = dict(var=4, apply=8, ite=2, quantify=1, cofactor=1, rename=1, compose=1, hold=5,
-                 release=1, gc=1, swap=1, sift=0.5, order=0.5)
+                 release=1, gc=1, swap=1, sift=0.5, order=0.5, gcroots=1, pairs=0.5, cube=1,
+                 image=(0 if dyn else 0.5), preimage=(0 if dyn else 0.5))
         inject_at = sorted(rng.sample(range(60), rng.randint(2, 6)))
         roots_at = rng.randrange(5, 25) if rng.random() < 0.4 else -1
         for i in range(rng.randint(15, 60)):
